@@ -94,7 +94,7 @@ struct GTN : NoClass {
     if (v0 > 0) {
       std::snprintf(api, na, "%s<%d>:%s", name, int(N), "residual S(value)=0");
       // dS/ds* ~ -2/s*: an error of 1e-11 s* on the root leaves |S| ~ 2e-11
-      R.check(api, S, idx, h, std::fabs(residual(A, p, v0)), 1e-8L, dump);
+      R.check(api, S, idx, h, std::fabs(residual(A, p, v0)), 1e-7L, dump);
     }
   }
 };
@@ -158,7 +158,7 @@ struct RTB : NoClass {
     const M3 A = from_st(sd, N);
     if (v0 > 0) {
       std::snprintf(api, na, "%s<%d>:%s", name, int(N), "residual S(value)=0");
-      R.check(api, S, idx, h, std::fabs(residual(A, p, v0)), 1e-8L, dump);
+      R.check(api, S, idx, h, std::fabs(residual(A, p, v0)), 1e-7L, dump);
     }
   }
 };
